@@ -253,6 +253,41 @@ def eval_C10(item):
         if not close(r2, qf_alt, span * span):
             res['pred'].append('mom2_along with a direction buffer updated in place to %r gives %r (result for the old contents %r), '
                                'quadratic form %s' % (d_alt, r2, d, qf_alt))
+    # values handed over in a narrower float dtype (each exactly representable there): moments are still
+    # accumulated in double precision -- the sums below are NOT representable in the narrow dtype
+    if len(pos) >= 2:
+        for dt, B in ((np.float32, 2 ** 24), (np.float16, 2048)):
+            wn = [B] + [1] * (len(pos) - 1)
+            idxn = tuple(np.array([c[i] for c in pos]) for i in range(nd))
+            with warnings.catch_warnings():
+                warnings.simplefilter('ignore')
+                sn = ScalarStatistic(np.array(wn, dtype=dt), idxn)
+                m0n = float(sn.mom0())
+                m1n = [float(x) for x in sn.mom1()]
+            Sn = Fraction(B + len(pos) - 1)
+            meann = [sum(Fraction(w) * c[i] for w, c in zip(wn, pos)) / Sn for i in range(nd)]
+            if m0n != float(Sn):
+                res['pred'].append('mom0 of %s values %r is %r, their sum is %s' % (np.dtype(dt).name, wn[:4], m0n, Sn))
+            elif any(not close(m1n[i], meann[i], span) for i in range(nd)):
+                res['pred'].append('mom1 of %s values is %r, weighted mean %r' % (np.dtype(dt).name, m1n, [float(x) for x in meann]))
+    # positions far from the origin (a small structure in a large mosaic): second moments are those of the
+    # centred coordinates, to double precision
+    if len(pos) >= 2:
+        off = [(2 ** 20 + 3) if i == (len(pos) % nd) else (10 ** 6 if i % 2 else 2 ** 10) for i in range(nd)]
+        posb = [tuple(c[i] + off[i] for i in range(nd)) for c in pos]
+        with warnings.catch_warnings():
+            warnings.simplefilter('ignore')
+            sb_ = make_stat(posb, wk, fb)
+            Mb = np.array(sb_.mom2(), dtype=float)
+            ab_ = float(sb_.mom2_along(tuple(d)))
+            m1b = [float(x) for x in sb_.mom1()]
+        covf_ = np.array([[float(x) for x in row] for row in cov])
+        if not np.allclose(Mb, covf_, rtol=0, atol=1e-6):
+            res['pred'].append('second moments of positions offset by %r: %r, covariance %r' % (off, Mb.tolist(), covf_.tolist()))
+        if not close(ab_, qf, span * span, 1e-8):
+            res['pred'].append('mom2_along of positions offset by %r: %r, quadratic form %s' % (off, ab_, qf))
+        if any(abs(m1b[i] - (float(mean[i]) + off[i])) > 1e-6 for i in range(nd)):
+            res['pred'].append('mom1 of positions offset by %r: %r' % (off, m1b))
     # several live statistic objects built from ONE caller-owned values array: results must not depend on
     # what was evaluated on the others before, and the caller's array must stay untouched
     shared = np.array([np.nan if k is None else k / float(2 ** fb) for k in wk], dtype=float)
@@ -485,6 +520,18 @@ def eval_C13(item):
                 pass
             except Exception as e:
                 res['pred'].append('flux property with %s missing raised %s' % (k_, type(e).__name__))
+    # a float32 image in Jy: the flux of a structure is the sum of its pixel values in double precision
+    with warnings.catch_warnings():
+        warnings.simplefilter('ignore')
+        nn_ = max(2, len(vals))
+        w32 = np.array([2 ** 24] + [1] * (nn_ - 1), dtype=np.float32)
+        idxw = (np.arange(nn_) // 3, np.arange(nn_) % 3)
+        try:
+            f32 = PPStatistic(ScalarStatistic(w32, idxw), {'data_unit': u.Jy}).flux
+            if f32.unit != u.Jy or float(f32.value) != float(2 ** 24 + nn_ - 1):
+                res['pred'].append('flux of float32 Jy pixels %r is %r, their sum is %d' % (w32[:4].tolist(), f32, 2 ** 24 + nn_ - 1))
+        except Exception as e:  # noqa
+            res['pred'].append('flux of float32 pixels raised %s' % type(e).__name__)
     # linear, additive, unit-independent
     a = item['a']
     ra = float(flux_call(fam, [a * v for v in vals], unit, out, meta).value)
@@ -703,6 +750,28 @@ def eval_C11(item):
                 pw = POW.get(k, 1)
                 if not close(val[k] ** pw, w ** pw, (10 * DX * DX + 10) ** pw, 1e-8):
                     res['pred'].append('%s differs between vaxis=%d and the transposed data with vaxis=0: %r vs %r' % (k, v, val[k], w))
+    # pixel values of a float16 / float32 image (each exactly representable): statistics are those of the
+    # same numbers in double precision (the weight sums are not representable in the narrow dtype)
+    if len(pos) >= 2:
+        for dt, B in ((np.float16, 2048), (np.float32, 2 ** 24)):
+            wn = [B] + [1] * (len(pos) - 1)
+            idxn = tuple(np.array([c[i] for c in pos]) for i in range(dim))
+            Sn, meann, covn = _exact_moments(pos, wn, 0, dim)
+            an, bn, cn = float(covn[sky[0]][sky[0]]), float(covn[sky[0]][sky[1]]), float(covn[sky[1]][sky[1]])
+            with warnings.catch_warnings():
+                warnings.simplefilter('ignore')
+                try:
+                    sn = cls(ScalarStatistic(np.array(wn, dtype=dt), idxn), md)
+                    gmaj, gmin = float(sn.major_sigma.value), float(sn.minor_sigma.value)
+                    gx, gy = float(sn.x_cen.value), float(sn.y_cen.value)
+                except Exception as e:  # noqa
+                    res['pred'].append('statistics of %s values raised %s' % (np.dtype(dt).name, type(e).__name__))
+                    continue
+            if not close(gmaj ** 2 + gmin ** 2, DX * DX * (an + cn), 25 * DX * DX, 1e-7) or \
+                    not close(gx, float(meann[sky[1]]), 5, 1e-7) or not close(gy, float(meann[sky[0]]), 5, 1e-7):
+                res['pred'].append('statistics of %s pixel values %r: major^2+minor^2 = %r (definition %r), centroid (%r, %r) (definition (%r, %r))'
+                                   % (np.dtype(dt).name, wn[:4], gmaj ** 2 + gmin ** 2, DX * DX * (an + cn), gx, gy,
+                                      float(meann[sky[1]]), float(meann[sky[0]])))
     # one statistic object whose metadata dictionary is updated in place (it is read at every evaluation):
     # after declaring another velocity axis every quantity is that of a fresh object with the new metadata
     if dim == 3:
@@ -784,6 +853,28 @@ def gen_item_C12(rng, idx, tier):
     if case['minv'] != 'min':
         case['minv'] = [max(case['minv'][0], 0), case['minv'][1]]
     case['crits'] = []
+    if idx % 8 == 5:
+        # a long periodic axis (a survey strip): a structure straddling the edge, far more columns than a byte holds
+        L = rng.choice([171, 200, 250, 255, 256, 300])
+        r_ = rng.choice([1, 2, 3])
+        case = gen.gen_compute_case(rng, force={'shape': [r_, L], 'periodic': [1], 'layout': 'C'})
+        case['per_as_list'] = False
+        case['dtype'] = 'float64'
+        case['fb'] = 0
+        k = [0] * (r_ * L)
+        w1, w2 = rng.randint(1, 6), rng.randint(1, 10)
+        cols = list(range(L - w1, L)) + list(range(0, w2))
+        mid = rng.randint(30, L - 40)
+        for c_ in cols + list(range(mid, mid + rng.randint(1, 5))):
+            for row in range(r_):
+                if rng.random() < 0.85:
+                    k[row * L + c_] = rng.randint(1, 20)
+        k[0] = max(k[0], 3)
+        k[L - 1] = max(k[L - 1], 2)
+        case.update({'k': k, 'minv': [0, 1], 'mind': 0, 'minn': 0, 'crits': [], 'kind': 'long-periodic', 'reuse': False})
+        case.pop('inf', None)
+        mode = 'periodic'
+        nd = 2
     ops = [ph.gen_prune_op(rng, case, allow_crits=False)] if rng.random() < 0.4 else []
     allf = ['major_sigma', 'minor_sigma', 'radius', 'area_ellipse', 'area_exact', 'position_angle', 'x_cen', 'y_cen', 'flux'] + \
         (['v_rms', 'v_cen'] if nd == 3 else [])
